@@ -1,5 +1,5 @@
 (* C19 — no table is asked to hold more than its capacity. Pending phase. *)
-From PF Require Import Base ModelReg ProofsRegBasic.
+From PF Require Import Base ModelReg ModelSys ProofsRegBasic.
 
 (* before the competition has started no callback is made: no table is opened, nobody assigned *)
 Theorem C19_no_table_while_pending_add :
